@@ -1,0 +1,24 @@
+//go:build verif
+
+// Package verifhook provides observation points for the verification harness
+// in /verif. With the "verif" build tag the functions forward to settable
+// function variables; without it they are empty and inlined away.
+package verifhook
+
+// EmitFn, if set, receives named events with integer arguments.
+var EmitFn func(name string, args ...int)
+
+// PointFn, if set, is called at named program points (scheduling gates).
+var PointFn func(name string)
+
+func Emit(name string, args ...int) {
+	if f := EmitFn; f != nil {
+		f(name, args...)
+	}
+}
+
+func Point(name string) {
+	if f := PointFn; f != nil {
+		f(name)
+	}
+}
